@@ -377,9 +377,11 @@ def run_half_linear(ctx, pygam, idxs=None):
     ncase = 72 if ctx.tier == 'quick' else 450
     idxs = range(ncase) if idxs is None else idxs
     for i in idxs:
-        c = make_case(ctx.seed, st, i, ctx.tier, force=dict(tau=0.5))
+        # n >= 40: with fewer rows than ~2x the coefficients the sqrt(eps) ridge (which `lam` does not scale) is what
+        # determines part of the solution and the two fits differ by 1e-5
+        c = make_case(ctx.seed, st, i, ctx.tier, force=dict(tau=0.5, n=[40, 80, 150][i % 3]))
         sig = case_sig(c)
-        ctx.case(st, sig, nontrivial=True)
+        ctx.case(st, sig, nontrivial=('mono' not in c['mix']))
         Xn = np.c_[c['rs'].rand(25), c['rs'].rand(25) * 2 - 1, c['rs'].randint(0, 4, 25).astype(float)]
 
         def ev():
@@ -404,8 +406,10 @@ def run_half_linear(ctx, pygam, idxs=None):
         # does not double it, so the two fits agree only up to the slack of the soft constraint
         soft = 'mono' in c['mix']
         if soft:
-            ctx.count('half.linear: constrained term, diff > 1e-6 (soft-constraint slack)', d > 1e-6 * scale)
-        tol = 1e-3 if soft else 1e-6
+            # observation only: the iteratively re-built constraint penalty is outside the statement (theorem: *all* of A doubled)
+            ctx.count('half.linear: constrained term (not judged), rel. diff', '>1e-3' if d > 1e-3 * scale else ('>1e-6' if d > 1e-6 * scale else '<=1e-6'))
+            continue
+        tol = 1e-6
         if d > 10 * tol * scale:
             a, b, d, d1 = ev()
             if d > 10 * tol * scale:
